@@ -1,0 +1,26 @@
+//go:build verif
+
+// Contracts for deductive verification (comment-only; compiled only with -tags verif).
+// Syntax and semantics: /verif/DESIGN.md §2.6 and Appendix A.
+
+package opchild
+
+//@ func EndBlocker
+//@   let h := height % 18446744073709551616
+//@   let found := ExecutorChangePlans[h] != None
+//@   let plan := val(ExecutorChangePlans[h])
+//@   let pva := addrBytes(2, plan.NextValidator.OperatorAddress)
+//@   requires forall k bytes :: Validators[k] != None ==> addrOK(2, val(Validators[k]).OperatorAddress) && addrBytes(2, val(Validators[k]).OperatorAddress) == k   // INV_VAL K1
+//@   requires forall k bytes :: LastValidatorPowers[k] != None ==> Validators[k] != None                                                                          // INV_VAL K2
+//@   requires forall k bytes :: Validators[k] != None ==> val(Validators[k]).ConsPower >= 0                                                                       // INV_VAL K3
+//@   requires forall g uint64 :: ExecutorChangePlans[g] != None ==> addrOK(2, val(ExecutorChangePlans[g]).NextValidator.OperatorAddress)
+//@        && val(ExecutorChangePlans[g]).NextValidator.ConsPower == 1                                                                                            // INV_PLAN (RegisterExecutorChangePlan)
+//@   ensures err == nil && !found ==> Params == old(Params)                                                                                // C14: no_plan_no_executor_change
+//@   ensures err == nil && found ==> Params != None && val(Params).BridgeExecutors == plan.NextExecutors                                   // C14: executors_become_the_plan_list
+//@   ensures err == nil && found ==> Validators[pva] == Some(plan.NextValidator) && LastValidatorPowers[pva] == Some(1)                    // C14: plan_validator_bonded
+//@   ensures err == nil && found ==> forall k bytes :: LastValidatorPowers[k] != None ==> k == pva                                         // C14: plan_validator_is_the_only_bonded_one
+//@   ensures err == nil ==> forall k bytes :: LastValidatorPowers[k] != None ==> Validators[k] != None && val(Validators[k]).ConsPower > 0
+//@        && LastValidatorPowers[k] == Some(val(Validators[k]).ConsPower)                                                                  // C13: last_powers_are_exactly_the_bonded_set
+//@   ensures err == nil ==> forall k bytes :: Validators[k] != None ==> val(Validators[k]).ConsPower > 0 && LastValidatorPowers[k] == Some(val(Validators[k]).ConsPower)   // C13: state_has_only_bonded_validators_after_the_block
+//@   ensures err == nil ==> forall u int :: 0 <= u && u < len(ret0) ==> ret0[u].Power >= 0                                                // C13: no_negative_power_in_batch
+//@   assigns Validators, ValidatorsByConsAddr, LastValidatorPowers, Params
